@@ -21,7 +21,12 @@ TYPEDEFS = {}
 class Contract:
     def __init__(self, key, **kw):
         self.key = key
-        self.module, self.qual = key.split(':') if ':' in key else (None, key)
+        # `module:qualname#variant`: several contracts (views) of one function; callers see the plain key only
+        base, _, self.variant = key.partition('#')
+        self.module, self.qual = base.split(':') if ':' in base else (None, base)
+        # entry assumptions of THIS verification only (not required from callers); each is listed in the evidence
+        self.assumes = kw.pop('assumes', [])
+        self.why_assumed = kw.pop('why_assumed', '')
         self.props = kw.pop('props', [])
         self.types = kw.pop('types', {})
         self.requires = kw.pop('requires', [])
